@@ -102,10 +102,10 @@ theorem dmg_verify_wrong_length (d : Dir) (page c : Bytes) (hps : d.hdr.pageShif
   simp [verifyPagesOn, hps, hc, this]
 
 /-- the end-to-end statement through the superblob: for every hash function `H` with values of the advertised size and
-    every CMS blob, the verifier's plan on the written image consists of comparisons that all succeed.  Not proved as
-    one theorem (it needs `parseSignature ∘ marshalSuperBlob ∘ newCodeDirectory` = identity on the directory content,
-    which is stated reader-side in C05 only); its links are `dmg_sign_then_verify`, `dmg_signed_slots`,
-    `dmg_verify_single_slot`, `dmg_verify_rep_slot`, and it is executed on every `sign` / `realsign` op with real keys. -/
+    every CMS blob, the verifier's plan on the written image consists of comparisons that all succeed.
+    PROVED: `dmg_sign_then_verify_end_to_end` in Props/C01_DmgFull.lean (superblob round trip `CodeDir.parseSuper_marshal`,
+    code-directory round trip `CodeDir.parse_newCodeDirectory`, `CodeDir.parseSignature_own`, `Dmg.verifyBlob_own`); its
+    container-layer link is `dmg_sign_then_verify` below; also executed on every `sign` / `realsign` op with real keys. -/
 def dmg_sign_then_verify_full : Prop :=
   ∀ (H : Bytes → Bytes) (t f : Bytes) (p : SignParams) (so : SignOut) (cms : Bytes),
     (∀ x, (H x).length = hashSizeOf p.hash) → 8 < cms.length →
